@@ -4,7 +4,8 @@ import sys
 from . import common as C
 
 TARGETS = {
-    "asan": ["drv_sorted"],
+    "asan": ["drv_sorted", "drv_pipeline"],
+    "plain": ["drv_rotation"],
 }
 
 
